@@ -3,6 +3,7 @@ package main
 import (
 	"fmt"
 	"os"
+	"strconv"
 	"strings"
 )
 
@@ -154,10 +155,11 @@ type Prelude struct {
 	Attach map[string][]string // module -> axiom modules attached to it (left out of lemma queries)
 	Monotone map[string]bool // ghost counters that never decrease
 	Grows map[string]bool // ghost sets that only grow
+	StrLits map[string]string // string literal value -> prelude constant
 }
 
 func LoadPrelude(paths ...string) (*Prelude, error) {
-	p := &Prelude{Fns: map[string]*SpecFn{}, Ghosts: map[string]string{}, Consts: map[string]string{}, ModDeps: map[string][]string{}, AfterSorts: map[string]bool{}, ExtraDecl: map[string]string{}, Attach: map[string][]string{}, Monotone: map[string]bool{}, Grows: map[string]bool{}}
+	p := &Prelude{Fns: map[string]*SpecFn{}, Ghosts: map[string]string{}, Consts: map[string]string{}, ModDeps: map[string][]string{}, AfterSorts: map[string]bool{}, ExtraDecl: map[string]string{}, Attach: map[string][]string{}, Monotone: map[string]bool{}, Grows: map[string]bool{}, StrLits: map[string]string{}}
 	for _, path := range paths {
 		data, err := os.ReadFile(path)
 		if err != nil {
@@ -190,6 +192,16 @@ func LoadPrelude(paths ...string) (*Prelude, error) {
 				module = f[0]
 				for _, d := range f[1:] {
 					p.ModDeps[module] = append(p.ModDeps[module], d)
+				}
+				continue
+			}
+			if strings.HasPrefix(s, ";@strlit") {
+				f := strings.SplitN(strings.TrimSpace(strings.TrimPrefix(s, ";@strlit")), " ", 2)
+				if len(f) == 2 {
+					v, err := strconv.Unquote(strings.TrimSpace(f[1]))
+					if err == nil {
+						p.StrLits[v] = f[0]
+					}
 				}
 				continue
 			}
